@@ -41,11 +41,12 @@ Proof.
 Qed.
 Lemma has_bg_retarget : forall lk l, has_bg (map (fun '(i, o) => (mkI lk (i_path i), o)) l) -> has_bg l.
 Proof.
-  intros lk l [i [o [Hin Hp]]]. apply in_map_iff in Hin. destruct Hin as [[i0 o0] [E Hin]]. inversion E; subst.
-  exists i0, o0. auto.
+  intros lk l [i [o [Hin Hp]]]. apply in_map_iff in Hin. destruct Hin as [[i0 o0] [E Hin]]. injection E as E1 E2. subst i.
+  exists i0, o0. split; [exact Hin|exact Hp].
 Qed.
 
 Ltac t_BT :=
+  intros;
   lazymatch goal with
   | |- BT (upd_task ?t _ _) =>
     match goal with H : BT _ |- _ =>
@@ -60,3 +61,296 @@ Ltac bt_go0 := inv_go fail t_BT.
 
 Lemma BT_ct_prefix : forall t b s, BT s -> BT (ct_prefix t b s).
 Proof. intros t b s H. unfold ct_prefix. bt_go0. Qed.
+
+(* a new task with its first operation *)
+Lemma BT_new_task_op : forall s x prio i m,
+  aget Nat.eqb (s_ntasks s) (s_tasks s) = None ->
+  olrn_ok (t_learner x) -> t_ops x = [] -> (i_path i = bgp -> onofail (t_learner x)) -> BT s ->
+  BT (fst (new_operation (s_ntasks s) prio i m (s <| s_ntasks ::= S |> <| s_tasks ::= fun l => l ++ [(s_ntasks s, x)] |>))).
+Proof.
+  intros s x prio i m Hfresh Hl Ho Hb H. unfold new_operation. cbn [fst]. set (bt := s_ntasks s).
+  set (sN := s <| s_ntasks ::= S |> <| s_tasks ::= fun l => l ++ [(bt, x)] |>).
+  assert (HN : BT sN) by (apply BT_newtask; [split; [exact Hl|intros [i' [o' [Hin _]]]; rewrite Ho in Hin; destruct Hin]|exact H]).
+  assert (Eg : get_task sN bt = x) by (unfold sN, bt; rewrite get_task_newtask, Hfresh, Nat.eqb_refl; reflexivity).
+  apply BT_upd_task; [|eapply BT_frame; [|exact HN]; reflexivity].
+  rewrite (get_task_frame sN) by reflexivity. rewrite Eg. split; [exact Hl|]. cbn [t_ops t_learner set]. rewrite Ho.
+  intros [i' [o' [Hin Hp]]]. destruct Hin as [E|[]]. inversion E; subst i' o'. exact (Hb Hp).
+Qed.
+
+Lemma lrn_ok_succ : forall l bidx bdur btm bl, lrn_ok l -> l_succ l = Some (bidx, bdur, btm, bl) -> l_fail bl = None /\ lrn_ok bl.
+Proof. intros [id succ fail] bidx bdur btm bl H E. cbn in *. subst succ. exact (proj1 H). Qed.
+Lemma lrn_ok_fail : forall l d tm nl, lrn_ok l -> l_fail l = Some (d, tm, nl) -> lrn_ok nl.
+Proof. intros [id succ fail] d tm nl H E. cbn in *. subst fail. exact (proj2 H). Qed.
+
+Lemma BT_schedule : forall t s, BT s -> BT (schedule t s).
+Proof. intros. bt_go0. Qed.
+
+Lemma BT_ct_learner : forall t r b x p k s,
+  (t < s_ntasks s)%nat -> aget Nat.eqb (s_ntasks s) (s_tasks s) = None ->
+  olrn_ok (t_learner x) -> (has_bg (t_ops (get_task s t)) -> onofail (t_learner x)) ->
+  BT s -> BT (fst (ct_learner t r b x p k s)).
+Proof.
+  intros t r b x p k s Ht Hfresh Hlx Hbx H. unfold ct_learner.
+  destruct (t_learner x) as [l|] eqn:El; [|cbn [fst]; bt_go0]. cbn in Hlx, Hbx.
+  assert (Hset : forall s0 lr, BT s0 -> t_ops (get_task s0 t) = t_ops (get_task s t) -> olrn_ok lr -> (has_bg (t_ops (get_task s t)) -> onofail lr) ->
+            BT (upd_task t (fun x => x <| t_learner := lr |>) s0)).
+  { intros s0 lr H0 Eo A B. apply BT_upd_task; [|exact H0]. split; [exact A|]. cbn [t_ops t_learner set]. rewrite Eo. exact B. }
+  destruct (resp_success r).
+  - cbv zeta. set (s1 := upd_task t _ (emit _ s)).
+    assert (H1 : BT s1) by (unfold s1; apply Hset; [bt_go0|reflexivity|exact I|intros _; exact I]).
+    destruct (l_succ l) as [[[[bidx bdur] btimeout] bl]|] eqn:Es; [|exact H1].
+    destruct (lrn_ok_succ _ _ _ _ _ Hlx Es) as [Hnf Hbl].
+    destruct (Nat.eqb (p_maxbg p) 0); [cbn [fst]; bt_go0|].
+    set (s2 := get_or_create_invocation _ _ s1). assert (H2 : BT s2) by (unfold s2; bt_go0).
+    destruct (goc_frames (mkSK (sk_pk k) (nth bidx (p_scs p) 0%N)) [4294967295%N] s1) as [G1 _].
+    destruct (get_or_create_invocation_tasks (mkSK (sk_pk k) (nth bidx (p_scs p) 0%N)) [4294967295%N] s1) as [_ [_ G4]]. fold s2 in G1, G4.
+    assert (Hf2 : aget Nat.eqb (s_ntasks s2) (s_tasks s2) = None).
+    { rewrite G4, G1. unfold s1. cbn. rewrite (aget_aset_other Nat.eqb nat_eqb_eq); [exact Hfresh|]. lia. }
+    clearbody s2. destruct (Nat.leb _ _); [cbn [fst]; bt_go0|]. cbv zeta.
+    match goal with |- BT (fst (let '(s, _) := new_operation ?bt ?prio ?bi true ?sN in _)) =>
+      pose proof (BT_new_task_op s2 (mkTask [] (t_instance x) (t_digest x) (Some true) btimeout (t_qts x) (t_suffix x) None 0 bdur (Some bl) None 0) prio bi true Hf2 Hbl eq_refl (fun _ => Hnf) H2) as H3 end.
+    destruct (new_operation (s_ntasks s2) _ _ true _) as [s3 o3]. cbn [fst] in *. apply BT_schedule. exact H3.
+  - destruct b; cbv zeta.
+    + destruct (l_fail l) as [[[d tm] nl]|] eqn:Ef; cbn [fst].
+      * apply Hset; [bt_go0|reflexivity|exact (lrn_ok_fail _ _ _ _ Hlx Ef)|]. intro Hb. specialize (Hbx Hb). congruence.
+      * apply Hset; [bt_go0|reflexivity|exact I|intros _; exact I].
+    + cbn [fst]. apply Hset; [bt_go0|reflexivity|exact I|intros _; exact I].
+Qed.
+
+Lemma BT_ct_tail : forall t r x p k s retry, BT s -> BT (ct_tail t r x p k s retry).
+Proof.
+  intros t r x p k s retry H. unfold ct_tail. destruct retry as [[d tm]|]; [|bt_go0]. cbv zeta.
+  set (lk := mkSK (sk_pk k) (largest_sc p)). set (old := t_ops (get_task s t)).
+  destruct (goc_fold_frames lk old s) as [G1 _]. set (s6 := fold_left _ old s) in *.
+  assert (H6 : BT s6) by (unfold s6; bt_go0).
+  assert (Eold : old = t_ops (get_task s6 t)) by (unfold old; symmetry; f_equal; apply get_task_frame; exact G1).
+  clearbody s6. clear H. clearbody old. subst old.
+  set (s7 := upd_task t _ s6).
+  assert (H7 : BT s7).
+  { unfold s7. apply BT_upd_task; [|exact H6]. destruct (H6 t) as [A B]. split; [exact A|]. cbn [t_ops t_learner set].
+    intro Hb. apply B. eapply has_bg_retarget. exact Hb. }
+  clearbody s7. fold (retarget_fold lk (t_ops (get_task s6 t)) s7).
+  assert (H8 : BT (retarget_fold lk (t_ops (get_task s6 t)) s7)).
+  { generalize (t_ops (get_task s6 t)). intro l. revert H7. generalize s7. induction l as [|[i o] l IH]; intros a Ha; cbn [retarget_fold fold_left]; [exact Ha|].
+    apply IH. t_BT. }
+  set (s8 := retarget_fold _ _ s7) in *. clearbody s8. unfold report_non_final_stage_change. bt_go0.
+Qed.
+
+Lemma BT_complete_task : forall t r b s, W s -> (t < s_ntasks s)%nat -> BT s -> BT (complete_task t r b s).
+Proof.
+  intros t r b s HW Ht H. rewrite complete_task_eq2. destruct (t_resp (get_task s t)); [exact H|]. cbv zeta.
+  pose proof (BT_ct_prefix t b s H) as H4. destruct (ct_prefix_frames t b s) as [[K1 [K2 _]] _].
+  assert (HW4 : W (ct_prefix t b s)) by (apply (W_of_WL_step t s _ HW Ht); intro HWL; unfold ct_prefix; w_go2).
+  assert (Hn4 : s_ntasks (ct_prefix t b s) = s_ntasks s).
+  { assert (Hk : keeps_counts (s_ntasks s) (s_nops s) (ct_prefix t b s)); [|exact (proj1 Hk)].
+    assert (H0 : keeps_counts (s_ntasks s) (s_nops s) s) by (split; reflexivity). unfold ct_prefix. fr_go (keeps_counts (s_ntasks s) (s_nops s)) t_counts. }
+  set (s4 := ct_prefix t b s) in *. clearbody s4.
+  destruct (get_pq s4 _) as [p|]; [|t_BT].
+  destruct (H t) as [A B].
+  pose proof (BT_ct_learner t r b (get_task s t) p (task_scq s t) s4 ltac:(lia) (W_task_fresh _ HW4) A) as H5.
+  unfold TKeep in *. rewrite K1 in H5. specialize (H5 B H4).
+  destruct (ct_learner t r b (get_task s t) p (task_scq s t) s4) as [s5 retry]. cbn [fst] in H5. apply BT_ct_tail. exact H5.
+Qed.
+
+(* ---- with valid indices at hand -------------------------------------------------------------------------------------------------------------- *)
+Definition WB (s : state) : Prop := W s /\ BT s.
+
+Lemma W_step1 : forall s s', W s -> (WL [] s -> WL [] s') -> W s'.
+Proof. intros s s' H Hf. apply (WL_W []). apply Hf. apply WL_of_W. exact H. Qed.
+
+Lemma WB_complete_task : forall t r b s, (t < s_ntasks s)%nat -> WB s -> WB (complete_task t r b s).
+Proof.
+  intros t r b s Ht [A B]. split; [apply (W_of_WL_step t s _ A Ht); apply WL_complete_task; left; reflexivity|apply BT_complete_task; assumption].
+Qed.
+
+Lemma WB_cancel_all_queued : forall i r s, WB s -> WB (cancel_all_queued i r s).
+Proof.
+  intros i r s H. rewrite cancel_all_queued_eq. apply cancel_go_closed; [|exact H].
+  intros s1 d v o tl H1 Hin Hq. apply WB_complete_task; [|exact H1]. exact (W_pick_qop _ _ _ _ _ (proj1 H1) Hin Hq).
+Qed.
+
+Lemma BT_operation_remove : forall o s, W s -> op_alive s o = true -> BT s -> BT (operation_remove o s).
+Proof.
+  intros o s HW Ha H. pose proof (W_pick_op _ _ HW Ha) as Hlt.
+  unfold operation_remove. cbv zeta.
+  match goal with |- BT (upd_task ?t _ (set s_ops _ ?e)) => assert (H1 : BT e) end.
+  { destruct (Nat.eqb _ 1); [apply BT_complete_task; [exact HW|exact Hlt|exact H]|].
+    unfold task_stage. destruct (t_resp (get_task s (o_task (get_op s o)))); [destruct (t_worker (get_task s (o_task (get_op s o)))); exact H|].
+    destruct (t_worker (get_task s (o_task (get_op s o)))) as [w|]; cbv iota; [bt_go0|].
+    match goal with |- BT (fst (fold_left ?g ?l ?a)) => apply (fold_left_pres (fun acc => BT (fst acc)) g l) end; [|cbn [fst]; bt_go0].
+    intros [s1 go] j Hs1. cbn [fst] in *. destruct go; [bt_go0|exact Hs1]. }
+  match goal with |- BT (upd_task ?t _ (set s_ops _ ?e)) => set (s1 := e) in * end. clearbody s1. t_BT.
+Qed.
+
+Lemma WB_run_entry : forall e s, In e (cleanup_entries s) -> WB s -> WB (run_entry e s).
+Proof.
+  intros e s Hin [HW H]. split; [apply (W_step1 s); [exact HW|apply WL_run_entry; exact Hin]|].
+  destruct e as [z ce]. unfold run_entry. cbn [fst snd]. destruct ce as [o|w|k].
+  - apply BT_operation_remove; [apply (W_step1 s); [exact HW|intro HWL; w_go2]|rewrite op_alive_upd_op; eapply cleanup_entry_op_alive; exact Hin|bt_go0].
+  - unfold remove_stale_worker, mark_terminating. cbv zeta.
+    set (s1 := upd_worker w (fun k => k <| k_term := true |>) (upd_worker w (fun k => k <| k_cleanup := None |>) s)).
+    assert (H1 : WB s1) by (unfold s1; split; [apply (W_step1 s); [exact HW|intro HWL; w_go2]|bt_go0]). clearbody s1.
+    set (s2 := match k_task (get_worker s1 w) with None => s1 | Some t => complete_task t (mkResp cUNAVAILABLE 0 0) false s1 end).
+    assert (H2 : BT s2).
+    { unfold s2. destruct (k_task (get_worker s1 w)) as [t|] eqn:Ek; [|exact (proj2 H1)].
+      apply BT_complete_task; [exact (proj1 H1)|exact (W_pick_worker _ _ _ (proj1 H1) Ek)|exact (proj2 H1)]. }
+    clearbody s2. bt_go0.
+  - unfold scq_remove. cbv zeta. set (s0 := upd_scq k (fun q => q <| q_cleanup := None |>) s).
+    assert (H0 : WB s0) by (unfold s0; split; [apply (W_step1 s); [exact HW|intro HWL; w_go2]|bt_go0]). clearbody s0.
+    pose proof (proj2 (WB_cancel_all_queued (mkI k []) (mkResp cUNAVAILABLE 0 0) s0 H0)) as H1.
+    set (s1 := cancel_all_queued _ _ s0) in *. clearbody s1. bt_go0.
+Qed.
+
+Lemma WB_enter : forall t s, WB s -> WB (enter t s).
+Proof.
+  intros t s H. split; [apply (W_step1 s); [exact (proj1 H)|apply WL_enter]|]. unfold enter. destruct (s_now s <? t); [|exact (proj2 H)]. cbv zeta.
+  assert (Hc : WB (cleanup_run (S (List.length (s_ops (s <| s_now := t |>)) + List.length (s_scqs (s <| s_now := t |>)) + List.length (flat_map (fun '(_, q) => q_workers q) (s_scqs (s <| s_now := t |>))))) (s <| s_now := t |>))); [|exact (proj2 Hc)].
+  apply cleanup_run_closed; [intros s1 w [A B]; split; [apply (W_step1 s1); [exact A|intro HWL; w_go2]|bt_go0] | intros; apply WB_run_entry; assumption | destruct H as [A B]; split; [apply (W_step1 s); [exact A|intro HWL; w_go2]|bt_go0]].
+Qed.
+
+(* ---- Synchronize ---------------------------------------------------------------------------------------------------------------------------------- *)
+Lemma BT_get_next_task : forall c w b pr s, BT s -> BT (get_next_task c w b pr s).
+Proof. intros. unfold get_next_task, sync_loop, assign_next_queued_task, sync_return_exec, sync_return_idle, finish_sync. bt_go0. Qed.
+
+Lemma WB_get_current_or_next : forall c w b pr s, WB s -> WB (get_current_or_next c w b pr s).
+Proof.
+  intros c w b pr s [HW H]. split; [apply (W_step1 s); [exact HW|apply WL_get_current_or_next]|]. unfold get_current_or_next.
+  destruct (k_task (get_worker s w)) as [t|] eqn:Ek; [|apply BT_get_next_task; exact H].
+  destruct (Nat.ltb _ _); [unfold sync_return_exec, finish_sync; bt_go0|].
+  apply BT_get_next_task. apply BT_complete_task; [exact HW|exact (W_pick_worker _ _ _ HW Ek)|exact H].
+Qed.
+
+Ltac wb_prim H := destruct H as [HWx HBx]; split; [match type of HWx with W ?s0 => apply (W_step1 s0); [exact HWx|let HWL := fresh "HWL" in intro HWL; w_go2] end|bt_go0].
+
+Lemma WB_sync_start : forall c a s, WB s -> WB (sync_start c a s).
+Proof.
+  intros c a s H. apply sync_start_closed; try exact H.
+  - intros s0 code H0. unfold ret. wb_prim H0.
+  - intros s0 k H0. wb_prim H0.
+  - intros s0 k b H0. unfold add_scq. wb_prim H0.
+  - intros s0 k l m b H0. unfold add_pq. wb_prim H0.
+  - intros s0 w H0. wb_prim H0.
+  - intros s0 k w n H0. wb_prim H0.
+  - intros s0 i H0. wb_prim H0.
+  - intros s0 w code H0. unfold sync_return_err, finish_sync. wb_prim H0.
+  - intros s0 w b pr H0. apply WB_get_current_or_next. exact H0.
+  - intros s0 w b pr [A B]. split; [apply (W_step1 s0); [exact A|apply WL_get_next_task]|apply BT_get_next_task; exact B].
+  - intros s0 w d z H0. unfold finish_sync. wb_prim H0.
+  - intros s0 w t r H0 Hk. apply WB_complete_task; [exact (W_pick_worker _ _ _ (proj1 H0) Hk)|exact H0].
+Qed.
+
+(* ---- Execute: the hypotheses on the request --------------------------------------------------------------------------------------------------- *)
+Definition exec_bg_ok (a : exec_args) : Prop := x_keys a <> bgp /\ lrn_ok (snd (x_sel a)).
+
+Lemma BT_exec_start : forall c a s, exec_bg_ok a -> W s -> BT s -> BT (exec_start c a s).
+Proof.
+  intros c a s [Hk Hl] HW H. unfold exec_start.
+  destruct (aget dkey_eqb _ _) as [t0|].
+  - cbv zeta. set (s1 := get_or_create_invocation _ _ (emit _ s)). assert (H1 : BT s1) by (unfold s1; bt_go0). clearbody s1.
+    destruct (aget iref_eqb _ _); [unfold wait_execution_begin, stream_iter; bt_go0|].
+    unfold new_operation. cbv iota beta.
+    match goal with |- BT (wait_execution_begin _ _ (match task_stage (get_task ?e t0) with _ => _ end)) => assert (H2 : BT e) end.
+    { apply BT_upd_task; [|eapply BT_frame; [|exact H1]; reflexivity]. rewrite (get_task_frame s1) by reflexivity.
+      destruct (H1 t0) as [A B]. split; [exact A|]. cbn [t_ops t_learner set]. intro Hb. apply B. eapply has_bg_app; [|exact Hb]. exact Hk. }
+    match goal with |- BT (wait_execution_begin _ _ (match task_stage (get_task ?e t0) with _ => _ end)) => set (s2 := e) in * end. clearbody s2.
+    unfold wait_execution_begin, stream_iter. bt_go0.
+  - destruct (longest_prefix_pq s _ _) as [p|]; [|unfold ret; bt_go0].
+    destruct (x_sel a) as [[[idx dur] timeout] l]. cbn [snd] in Hl. cbv zeta.
+    set (s1 := emit (OGhost GSelect) s).
+    set (x := mkTask [] (x_instance a) (x_digest a) (Some (x_dnc a)) timeout (s_now s1) (drop_prefix (pk_prefix (p_key p)) (x_instance a)) None 0 dur (Some l) None 0).
+    set (t := s_ntasks s1).
+    set (sN := s1 <| s_ntasks ::= S |> <| s_tasks ::= fun ts => ts ++ [(t, x)] |>).
+    assert (HN : BT sN) by (unfold sN, t; apply BT_newtask; [split; [exact Hl|intros [i' [o' [[] _]]]]|unfold s1; bt_go0]).
+    assert (Eg : get_task sN t = x) by (unfold sN, t; rewrite get_task_newtask; change (s_tasks s1) with (s_tasks s); change (s_ntasks s1) with (s_ntasks s); rewrite (W_task_fresh s HW), Nat.eqb_refl; reflexivity).
+    set (s3 := if x_dnc a then sN else sN <| s_inflight ::= aset dkey_eqb (x_instance a, x_digest a) t |>).
+    assert (H3 : BT s3 /\ get_task s3 t = x) by (unfold s3; destruct (x_dnc a); [split; assumption|split; [eapply BT_frame; [|exact HN]; reflexivity|exact Eg]]).
+    destruct H3 as [H3 Eg3]. clearbody s3.
+    set (s4 := get_or_create_invocation (mkSK (p_key p) (nth idx (p_scs p) 0%N)) (x_keys a) s3).
+    assert (H4 : BT s4) by (unfold s4; bt_go0).
+    assert (Eg4 : get_task s4 t = x) by (unfold s4; rewrite (get_task_frame s3); [exact Eg3|apply goc_frames]).
+    clearbody s4. unfold new_operation. cbv iota beta.
+    match goal with |- BT (wait_execution_begin _ _ (schedule t ?e)) => assert (H5 : BT e) end.
+    { apply BT_upd_task; [|eapply BT_frame; [|exact H4]; reflexivity]. rewrite (get_task_frame s4) by reflexivity. rewrite Eg4.
+      split; [exact Hl|]. cbn [t_ops t_learner set x]. intros [i' [o' [[E|[]] Hp]]]. inversion E; subst i'. cbn in Hp. contradiction. }
+    match goal with |- BT (wait_execution_begin _ _ (schedule t ?e)) => set (s5 := e) in * end. clearbody s5.
+    unfold wait_execution_begin, stream_iter. bt_go0.
+Qed.
+
+(* ---- events and runs ---------------------------------------------------------------------------------------------------------------------------------- *)
+Definition ev_bg_ok (e : event) : Prop := match e with EStartExecute _ a _ => exec_bg_ok a | _ => True end.
+Definition bg_scripts_ok (evs : list (event * list (nat * wref))) : Prop := forall eh, In eh evs -> ev_bg_ok (fst eh).
+
+Lemma BT_terminate_fold : forall p l s waits,
+  BT s -> BT (fst (fold_left (fun (acc : state * list (nat * nat)) w =>
+        let '(s, waits) := acc in
+        if matches w p then
+          let s := mark_terminating w s in
+          match k_task (get_worker s w) with
+          | Some tk => (s, waits ++ [(tk, t_gen (get_task s tk))])
+          | None => (if k_wait (get_worker s w) then wake_up w s else s, waits)
+          end
+        else (s, waits)) l (s, waits))).
+Proof. intros p l s waits H. apply (fr_terminate_fold BT); try (intros; t_BT); try exact H. Qed.
+
+Lemma WB_step_core : forall e s, ev_bg_ok e -> WB s -> WB (step_core e s).
+Proof.
+  intros e s Hev H. split; [apply (W_step1 s); [exact (proj1 H)|apply WL_step_core]|].
+  assert (He : forall t, WB (enter t s)) by (intro t; apply WB_enter; exact H).
+  destruct e; cbn [ev_bg_ok] in Hev; unfold step_core.
+  - (* Execute *) destruct (He t) as [A B]. apply BT_exec_start; assumption.
+  - destruct (He t) as [_ B]. set (s1 := enter t s) in *. clearbody s1. cbv zeta. unfold ret. bt_go0.
+  - (* Synchronize *) exact (proj2 (WB_sync_start c a _ (He t))).
+  - destruct (He t) as [_ B]. set (s1 := enter t s) in *. clearbody s1. unfold kill_lookup, ret. bt_go0.
+  - destruct (He t) as [A B]. set (s1 := enter t s) in *. clearbody s1. cbv zeta.
+    destruct (negb (scq_exists s1 k)); [unfold ret; bt_go0|]. destruct (negb _); [unfold ret; bt_go0|].
+    pose proof (proj2 (WB_cancel_all_queued (mkI k []) (mkResp code 0 0) s1 (conj A B))) as Hc. set (s2 := cancel_all_queued _ _ s1) in *. clearbody s2. unfold ret. bt_go0.
+  - destruct (He t) as [_ B]. set (s1 := enter t s) in *. clearbody s1. cbv zeta. unfold ret, wake_up. bt_go0.
+  - destruct (He t) as [_ B]. set (s1 := enter t s) in *. clearbody s1. cbv zeta. unfold ret. bt_go0.
+  - (* terminate *)
+    cbv zeta. destruct (He t) as [_ B]. set (s1 := enter t s) in *. clearbody s1.
+    match goal with |- BT (match ?x with _ => _ end) => rewrite (surjective_pairing x) end. cbv beta iota.
+    match goal with |- BT (set_call _ _ (fst (fold_left ?g ?l ?a))) => assert (H2 : BT (fst (fold_left g l a))) by (apply BT_terminate_fold; exact B) end.
+    t_BT.
+  - destruct (_ || _); [destruct H as [_ B]; unfold ret; bt_go0|]. cbv zeta. destruct (He t) as [_ B]. set (s1 := enter t s) in *. clearbody s1.
+    destruct (get_pq s1 k); unfold ret, add_pq; [bt_go0|].
+    match goal with |- BT (set_call _ _ (emit _ (fold_left ?g ?l ?a))) => assert (H2 : BT (fold_left g l a)) end.
+    { apply fold_left_pres; [intros a0 sc Ha0; unfold add_scq; bt_go0|bt_go0]. }
+    bt_go0.
+  - destruct (He t) as [_ B]. unfold ret. bt_go0.
+  - (* EEnter *)
+    cbv zeta. destruct (negb (at_gate s (get_call s c))); [exact (proj2 H)|]. destruct (He t) as [A B]. set (s1 := enter t s) in *. clearbody s1.
+    destruct (get_call s c); try exact B;
+      try (unfold stream_iter, stream_return, kill_lookup, wait_execution_begin, stream_iter, ret, sync_loop, assign_next_queued_task, sync_return_exec, sync_return_err, sync_return_idle, finish_sync, maybe_dequeue; bt_go0; fail).
+    destruct (op_alive s1 name) eqn:Ea; [|bt_go0].
+    pose proof (BT_complete_task (o_task (get_op s1 name)) (mkResp code 0 0) false s1 A (W_pick_op _ _ A Ea) B) as Hc.
+    set (s2 := complete_task _ _ false s1) in *. clearbody s2. unfold ret. bt_go0.
+  - (* ETimer *)
+    cbv zeta. destruct (at_gate s (get_call s c)); [exact (proj2 H)|]. destruct (He t) as [_ B]. destruct H as [_ B0]. set (s1 := enter t s) in *. clearbody s1.
+    destruct (get_call s c); unfold stream_iter, sync_return_exec, sync_return_idle, finish_sync, maybe_dequeue; bt_go0.
+  - (* ECancel *)
+    cbv zeta. destruct (at_gate s (get_call s c)); [exact (proj2 H)|]. destruct H as [_ B]. destruct (get_call s c); unfold ret; bt_go0.
+Qed.
+
+Lemma WB_step : forall s eh, ev_bg_ok (fst eh) -> WB s -> WB (fst (step s eh)).
+Proof.
+  intros s eh Hev [HW H]. split; [apply W_step; exact HW|]. unfold step. cbn [fst].
+  set (s0 := s <| s_hints := snd eh |> <| s_out := [] |>).
+  assert (H0 : WB s0) by (split; [apply (W_step1 s); [exact HW|intro HWL; eapply WL_frame; [..|exact HWL]; reflexivity]|eapply BT_frame; [|exact H]; reflexivity]).
+  pose proof (proj2 (WB_step_core (fst eh) s0 Hev H0)) as H1. set (s1 := step_core (fst eh) s0) in *. clearbody s1.
+  assert (H2 : BT (auto_returns s1)) by (apply (fr_auto_returns BT); try (intros; t_BT); try (intros; unfold ret; bt_go0); try exact H1).
+  eapply BT_frame; [|exact H2]. reflexivity.
+Qed.
+
+Lemma BT_init : forall cfg t0, BT (init cfg t0).
+Proof. intros cfg t0 t. unfold init, get_task. cbn. exact bt_dummy. Qed.
+
+Lemma BT_run_from : forall evs s, bg_scripts_ok evs -> WB s -> WB (fst (run s evs)).
+Proof.
+  induction evs as [|eh evs IH]; intros s Hok H; [exact H|]. cbn [run].
+  pose proof (WB_step s eh (Hok eh (or_introl eq_refl)) H) as H1.
+  destruct (step s eh) as [s1 o]. cbn [fst] in H1.
+  specialize (IH s1 (fun e He => Hok e (or_intror He)) H1). destruct (run s1 evs) as [s2 os]. exact IH.
+Qed.
+
+Lemma BT_run : forall cfg t0 evs, bg_scripts_ok evs -> BT (fst (run (init cfg t0) evs)).
+Proof. intros cfg t0 evs H. apply (BT_run_from evs (init cfg t0) H). split; [apply W_init|apply BT_init]. Qed.
